@@ -27,8 +27,8 @@ NOT_APPLICABLE = {
 PENDING = "check not built yet (work in progress; plan in DESIGN.md §5)"
 
 LEVEL_TEXT = {
-    "C02": ("Bounded model checking of the header table only: every known header name parses to the same variant under EVERY upper/lower-case spelling and prints its canonical name; two arbitrary short names denote the same header iff equal ignoring ASCII case; Headers::get returns the first value, get_all all values in insertion order, remove exactly the same-named fields (<= 3 entries). The request parser itself (start line, query, cookies, X-Forwarded-For, bodies, read segmentation, serialise/parse round trip, tokio twin) is NOT decided: Kani cannot symbolically execute it even on a concrete request (DESIGN §2).",
-            "Trusted: Kani/CBMC; the canonical-name table in kani/src/c02.rs."),
+    "C02": ("Header table (Kani/CBMC): every known header name parses to the same variant under EVERY upper/lower-case spelling and prints its canonical name; two arbitrary short names denote the same header iff equal ignoring ASCII case; Headers::get returns the first value, get_all all values in insertion order, remove exactly the same-named fields and leaves the others in order (<= 4 entries). Request parser (symbolic execution of the MIR of Request::from_stream, z3): for well-formed request TEMPLATES — all five methods, HTTP/1.0/1.1, symbolic path/query/header values (optional leading SP/HT, inner whitespace and ':')/custom header names/Content-Length body bytes, repeated and mixed-case names — the parser returns exactly the method, uri, query, version, typed header list in order, and body that the bytes denote, consumes exactly the request, and never panics, for every value of the symbolic holes. NOT decided: cookies, X-Forwarded-For, independence of read segmentation (BufReader is a model; only sampled natively), non-ASCII values, the serialise/parse round trip (format!), the tokio twin.",
+            "Trusted: Kani/CBMC; the canonical-name table in kani/src/c02.rs; the MIR executor with its std models (listed in the evidence) and the BufReader model; z3."),
     "C04": ("Bounded model checking of the real get_handler / call_websocket_handler with the wildcard matcher replaced by an uninterpreted predicate (one symbolic truth value per registered pattern): for every possible matcher outcome over 0..2 host sub-apps x 0..2 routes + 0..2 default routes (thorough: 0..3 each), with and without a Host header, the selected handler is the first matching route of the first matching host, else the first matching default route, else none; websocket dispatch likewise, and without a match the stream is dropped and no handler runs.",
             "Trusted: Kani/CBMC; the stub contract (the matcher is a pure predicate of pattern and text — C05 decides what it computes); allocator-model diagnostics of Kani are not verdicts (DESIGN §3.1)."),
     "C05": ("Symbolic execution of wildcard_match's MIR (dumped from the current tree) with pattern/text as sequences of symbolic Unicode scalar values; for every pattern length <= 7 and text length <= 10 (thorough: 12 x 18) z3 shows that the function cannot panic and returns exactly what the glob recurrence ('*' = any sequence, every other character only itself) prescribes. The executor is validated on every run against the natively compiled function on the repository's own test pairs plus 200 seeded pairs incl. 2- and 4-byte characters, and one exported query is cross-checked with cvc5.",
